@@ -5,6 +5,7 @@ package main
 
 import (
 	"fmt"
+	"strconv"
 	"math/big"
 	"sort"
 	"strings"
@@ -287,7 +288,44 @@ func distinctOffsets(a, b *Node) bool {
 	}
 	ba, ka, ok1 := split(a)
 	bb, kb, ok2 := split(b)
-	return ok1 && ok2 && ba == bb && ka != kb
+	if !ok1 || !ok2 {
+		return false
+	}
+	if ba == bb {
+		return ka != kb
+	}
+	if ba == nil || bb == nil {
+		return false
+	}
+	// different allocation bases: base2 >= base1 + n (recorded when the counter was bumped), so
+	// every reference base1 + k with k < n lies strictly below base2 + anything
+	na, _ := strconv.Atoi(ka)
+	nb, _ := strconv.Atoi(kb)
+	return baseAbove(bb, ba, na) || baseAbove(ba, bb, nb)
+}
+
+// allocLower[b] = (prev, n): b >= prev + n.
+var allocLower = map[*Node]struct {
+	prev *Node
+	n    int
+}{}
+
+// baseAbove: hi >= lo + m for some m > k (following the recorded chain).
+func baseAbove(hi, lo *Node, k int) bool {
+	total := 0
+	cur := hi
+	for i := 0; i < 64; i++ {
+		l, ok := allocLower[cur]
+		if !ok {
+			return false
+		}
+		total += l.n
+		if l.prev == lo {
+			return total > k
+		}
+		cur = l.prev
+	}
+	return false
 }
 
 func isDigits(s string) bool {
